@@ -556,6 +556,8 @@ def run(tier, seed):
             if n == 2 or tier != 'quick' or k[0] == 'ok']
     par.pmap(work_sequences, seqs, stats=st, chunk=4)
     par.pmap(work_gex_lost_probe, gex_lost_probe_tasks(), stats=st, chunk=3)
+    from props import delivery as _DL
+    par.pmap(_DL.work_policy, _DL.policy_tasks(tier), extra=(('policy-verdict',),), stats=st, chunk=12)
     vcases = []
     for family, pol, peer, fmt in H.pick([c for c in cc if c[3] in ('json', 'text')], seed, 16 if tier == 'quick' else 80):
         path = H.tmp_path('c06-val-%d.txt' % len(vcases))
